@@ -999,6 +999,34 @@ func (f *Frame) makeInterface(x *ssa.MakeInterface) {
 		return
 	}
 	f.set(x, f.boxValue(x.X.Type(), f.val(x.X)))
+	f.unfoldGhost(x.Type(), f.val(x))
+}
+
+// unfoldGhost: a spec block may define, for an interface type T, a bodyless ghost function
+// verifX(T) together with verifXDef(T), whose body states verifX of a value in terms of verifX
+// of the values it is built from (a definition by structural recursion). Whenever executable
+// code builds a T or inspects the dynamic type of one, the instance verifX(v) == verifXDef(v)
+// is added as a fact.
+func (f *Frame) unfoldGhost(t types.Type, v []*Term) {
+	if f.spec {
+		return
+	}
+	if _, isIface := t.Underlying().(*types.Interface); !isIface {
+		return
+	}
+	for _, uf := range f.u.W.unfoldsFor(t) {
+		tb := f.tb()
+		lhs := f.callFunc(uf[0], [][]*Term{v}, nil, nil, uf[0].Signature.Results().At(0).Type())
+		sub := &Frame{u: f.u, fn: uf[1], vals: map[ssa.Value][]*Term{}, spec: true, depth: f.depth + 1, inl: f.inl}
+		sub.set(uf[1].Params[0], v)
+		rhs, _ := sub.run(BState{reach: tb.True(), mem: f.cur.mem})
+		if len(lhs) == len(rhs) {
+			for i := range lhs {
+				f.u.addFact(tb.Implies(f.cur.reach, tb.Eq(lhs[i], rhs[i])))
+			}
+			f.u.Trusted["ghost function "+uf[0].Name()+" is defined by structural recursion through "+uf[1].Name()] = true
+		}
+	}
 }
 
 // ghostArgOnly: the interface value is only stored into the argument array of a variadic call
@@ -1069,6 +1097,7 @@ func ghostArgOnly(x *ssa.MakeInterface) bool {
 func (f *Frame) typeAssert(x *ssa.TypeAssert) {
 	tb := f.tb()
 	iv := f.val(x.X)
+	f.unfoldGhost(x.X.Type(), iv)
 	if _, isIface := x.AssertedType.Underlying().(*types.Interface); isIface {
 		// interface-to-interface assertion: succeeds iff the dynamic type implements it
 		ok := f.implementsTerm(iv[0], x.AssertedType)
